@@ -39,6 +39,9 @@ Calibration (unchanged tree)
 * ``dask.core.get(dsk, key)`` with a bare tuple / int key iterates the key (``flatten``) and raises
   KeyError / TypeError; the statement is about values, not request forms: single-key requests are bare only
   for string keys, otherwise ``[key]``.
+* Hashable values equal to a key but of a type other than int/float/str/tuple (``complex(1)``, ``numpy.int64(1)`` for key
+  ``1``) are not looked up by ``convert_legacy_task``; by the statement they are references.  Genuine under the strict
+  reading (PENDING, third label); generated only in 3 % of the random legacy programs (``exotic_spelling_programs``).
 * A raw dict inside a legacy task is not evaluated by dask although the statement says "dicts are
   evaluated elementwise": genuine, see PENDING / findings_proposed/C08.md.  Programs that put a key
   reference, a call or a quoted literal inside a raw dict are a small, separately counted fraction
@@ -63,8 +66,23 @@ ASSUMPTIONS = ["the harness term evaluator and the three-rule raw-graph evaluato
                "raw non-call tuples/namedtuples/sets are only generated with inert contents (the statement gives them no rule)"]
 BUDGET = {"quick": 90, "thorough": 600}
 FLOORS = {
-    "quick": {"evaluations": 1, "distinct_nontrivial": 1},
-    "thorough": {"evaluations": 1, "distinct_nontrivial": 1},
+    # measured on the unchanged tree (quick, seeds 0/1/2/7/12345): 3864 programs, ~3000 distinct non-trivial, 14.9k nodes,
+    # 22.4k pickle + 22.4k cloudpickle round trips, 11.6k whole-graph runs, 44k keys compared; thorough: 103k programs
+    "quick": {"evaluations": 1800, "distinct_nontrivial": 1400, "max_skipped_fraction": 0.2,
+              "counters": {"programs_legacy": 1000, "programs_spec": 700, "emitter_selfchecks": 1000,
+                           "nodes_checked": 6500, "dependency_checks": 6500, "local_evaluations": 6500,
+                           "pickle_roundtrips": 10000, "cloudpickle_roundtrips": 10000,
+                           "whole_graph_runs": 5000, "keys_compared": 20000, "nested_requests": 1700,
+                           "nested_nodes_checked": 1400, "programs_without_active_dict": 900, "dictactive_programs": 50},
+              "sets": {"converted_classes": 5, "nested_classes": 4}},
+    "thorough": {"evaluations": 50000, "distinct_nontrivial": 40000, "max_skipped_fraction": 0.2,
+                 "counters": {"programs_legacy": 27000, "programs_spec": 21000, "emitter_selfchecks": 27000,
+                              "nodes_checked": 180000, "dependency_checks": 180000, "local_evaluations": 180000,
+                              "pickle_roundtrips": 270000, "cloudpickle_roundtrips": 270000,
+                              "whole_graph_runs": 140000, "keys_compared": 500000, "nested_requests": 48000,
+                              "nested_nodes_checked": 48000, "programs_without_active_dict": 21000,
+                              "dictactive_programs": 4500},
+                 "sets": {"converted_classes": 5, "nested_classes": 4}},
 }
 EXHAUSTIVE_SPACE = {
     "quick": "all DAG shapes on n<=2 topologically numbered nodes x all 9 leaf forms / 14 reference-wrapping forms per node "
@@ -81,12 +99,16 @@ TECHNIQUE = "runtime monitoring: reference-model oracle (term evaluator) on conv
 
 LABEL_A = "legacy-dict-argument:key-or-call-inside-dict-value:not-evaluated"
 LABEL_B = "legacy-dict-elsewhere:key-or-call-inside-dict-value:not-evaluated"
+LABEL_C = "legacy-key-reference:equal-value-of-type-outside-int-float-str-tuple:not-a-reference"
+MECH_LABEL = {"arg": LABEL_A, "elsewhere": LABEL_B, "exotic": LABEL_C}
 PENDING = {
     LABEL_A: "a raw dict passed as a direct argument of a legacy task tuple (incl. the kwargs dict of (apply, f, args, {..})) is "
              "wrapped as Dict(a) without converting its values: keys / calls / quoted literals inside are neither evaluated "
              "nor dependencies, e.g. (f, {'a': 'k0'}) calls f({'a': 'k0'})",
     LABEL_B: "a raw dict that is a graph value or sits inside a list ({'k': {'a': 'k0'}}, (f, [{'a': 'k0'}])) is returned "
              "unchanged by convert_legacy_task: same symptom through the fall-through branch",
+    LABEL_C: "convert_legacy_task only looks up int/float/str/tuple instances in the key set: a hashable value of another type "
+             "that equals a key (complex(1), numpy.int64(1) for key 1) stays a literal, e.g. {1: 'one', 'a': (f, np.int64(1))}",
 }
 
 QUICK_RANDOM = 3000
@@ -108,7 +130,8 @@ def cases(tier, seed):
         mode = "legacy" if r < 0.6 else ("spec" if r < 0.8 else "specparse")
         yield {"seed": rng.randrange(2 ** 31), "n": rng.choice((1, 2, 3, 3, 4, 4, 5, 6, 7, 9)),
                "style": rng.choice(L.KEY_STYLES), "mode": mode,
-               "da": bool(mode == "legacy" and rng.random() < 0.07), "fam": rng.choice(L.FAMILIES)}
+               "da": bool(mode == "legacy" and rng.random() < 0.07), "fam": rng.choice(L.FAMILIES),
+               "ex": bool(mode == "legacy" and rng.random() < 0.03)}
 
 
 def _build(case):
@@ -116,7 +139,8 @@ def _build(case):
 
     if case.get("space") == "exhaustive":
         return L.small_prog(case["n"], case["mask"], case["v"], case["style"], case["mode"])
-    return L.random_prog(case["seed"], case["n"], case["style"], case["mode"], dictactive=case["da"], family=case["fam"])
+    return L.random_prog(case["seed"], case["n"], case["style"], case["mode"], dictactive=case["da"], family=case["fam"],
+                         exotic=case.get("ex", False))
 
 
 def _subsets(s):
@@ -324,6 +348,13 @@ def _run_legacy(case, ctx, prog, val):
         ctx.count("dictactive_programs")
     else:
         ctx.count("programs_without_active_dict")
+    nex = 0
+    for i in range(prog.n):
+        if L.has_exotic(prog.terms[i]):
+            blocked[i] = blocked[i] | {"exotic"}
+            nex += 1
+    if nex:
+        ctx.count("exotic_spelling_programs")
     try:
         new = convert_legacy_graph(dsk)
     except Exception as e:  # noqa: BLE001
@@ -365,10 +396,10 @@ def _run_legacy(case, ctx, prog, val):
                     except Exception:  # noqa: BLE001
                         continue
                     if same(got, v_s) and got_deps == d_s:
-                        labels = [LABEL_A if m == "arg" else LABEL_B for m in sorted(S)]
+                        labels = [MECH_LABEL[m] for m in sorted(S)]
                         break
             if labels:
-                ctx.count("dict_finding_nodes")
+                ctx.count("known_mechanism_nodes")
                 for lab in labels:
                     ctx.violation(lab, "%s: node gives %r with dependencies %r; reference value %r, referenced keys %r"
                                   % (describe_i(prog, i), got, sorted(map(repr, got_deps)), val[i], sorted(map(repr, want_deps))),
